@@ -1062,6 +1062,21 @@ def run(ctx):
             g[k] = r.choice([g.attributes._d[k], list(g.attributes._d[k]) + ["zz"], "v"])
         elif y < 0.5:
             g.dialect = dict(g.dialect, **{"trailing semicolon": True})
+        elif y < 0.68 and y >= 0.62:
+            # the same columns and the same attributes in ANOTHER KEY ORDER, both parsed with one and the same dialect
+            # (as all features of one database are): the printed lines differ, so the Features are not equal
+            try:
+                f = feature_from_line(l1)
+                ks = list(f.attributes.keys())
+                if len(ks) >= 2:
+                    g = feature_from_line(l1, dialect=f.dialect)
+                    f = feature_from_line(l1, dialect=f.dialect)
+                    first = ks[0]
+                    v = g.attributes._d.pop(first)
+                    g.attributes._d[first] = v                  # same keys and values, the first key now last
+                    res.count("eq_same_attributes_other_key_order")
+            except Exception:
+                pass
         elif y < 0.62:
             # both objects are hashed first (as members of a set / keys of a dict would be), then g is changed THROUGH
             # ITS attributes MAPPING, a value list or its extra list - not through g.<field> = ... or g[key] = ... :
@@ -1105,7 +1120,7 @@ def run(ctx):
             F.add("a set of two Features does not collapse exactly the equal ones", payload)
         res.count("pairs_equal" if sf == sg else "pairs_unequal")
         res.nontriv(("eq", sf, sg))
-        if y >= 0.62:     # unedited pairs of parsed lines: the model parses and prints both
+        if y >= 0.68:     # unedited pairs of parsed lines: the model parses and prints both
             corr("feq %s %s" % (enc(l1), enc(l2)), "ok %d %d" % (eq, ne), "Feature.__eq__/__ne__", repr((l1, l2)))
 
     # the stored JSON text follows in-place changes of a value list (no stale serialisation) -----------------------------
